@@ -479,12 +479,14 @@ def search(ctx, big):
     n_obj = ctx.n(8, 120) * mult
     for cls in obj_classes:
         for i in range(n_obj):
-            case = F.gen_obj_case(rng, obj_classes, field=F.FIELDS[i % 4])
-            case["sources"][0]["cls"] = cls
-            case["sources"][0]["params"] = F.gen_params(cls, rng)
+            case = F.gen_obj_case(rng, obj_classes, field=F.FIELDS[i % 4], first_cls=cls)
             res = F.run_case(case)
             ctx.case(("obj", json.dumps(case, sort_keys=True)), True)
             ctx.bump("object-forms:" + cls)
+            if len(case["sources"]) > 1 and case["sources"][0]["cls"] == case["sources"][1]["cls"] \
+                    and any(case["sources"][0]["params"].get(k) == case["sources"][1]["params"].get(k)
+                            for k in ("dimension", "diameter", "vertices", "tm_vertices")):
+                ctx.bump("object-forms:twin-instances")
             if res:
                 report(ctx, case, res)
     ctx.samples.append({"object_forms_case": case})
@@ -552,8 +554,11 @@ def search(ctx, big):
         ctx.add_broken("broken-correspondence", "magpylib.core.__all__",
                        f"core functions {sorted(core.__all__)} vs covered {sorted(F.CORE_FUNCTIONS)}")
     for cls in F.CORE_CLASSES:
-        for i in range(ctx.n(32, 300) * mult):
-            case = F.gen_core_case(rng, cls)
+        regions = ["segment", "segment-r1=0", "full-ring", "full-solid"] if cls == "CylinderSegment" else [None]
+        for i in range(ctx.n(32, 300) * mult * (2 if cls == "CylinderSegment" else 1)):
+            case = F.gen_core_case(rng, cls, region=regions[i % len(regions)])
+            if regions[0]:
+                ctx.bump("core:CylinderSegment:" + regions[i % len(regions)])
             res = F.run_case(case)
             ctx.case(("core", json.dumps(case, sort_keys=True)), True)
             ctx.bump("core:" + cls)
